@@ -18,7 +18,7 @@ META = {
         'instance each, no __eq__ override; (D3) Grid._approx_check never applies a kind-specific operation '
         '(attribute, method, arithmetic) to v2 unless v2\'s kind was tested, and Grid.__eq__ covers metadata keys '
         'and values, column keys, column-meta sizes and values, row count and every column of every row.  '
-        'Not decided: reflexivity/symmetry over all pairs as executions; the float tolerance itself.'),
+        'Also (D3): per-kind components of _approx_check (datetime: zone, date, time; Quantity: unit, value; Coordinate: latitude, longitude) all enter the comparison; the float branch is exact tests plus ONE absolute tolerance in [5e-7, 1e-6] (relative or operand-dependent bounds are violations); (D1) __hash__ reads a field through the same coarsening (round/lower/...) that __eq__ compares.  Not decided: reflexivity/symmetry over all pairs as executions; the float tolerance itself.'),
     'rule_text': 'one obligation per (class, rule) for 10 classes, per singleton fact, per _approx_check branch '
                  '(guard dominance), per coverage fact of Grid.__eq__',
     'trusted_base': ['Python falls back to the reflected __eq__ and then to identity when NotImplemented is returned; '
@@ -195,6 +195,32 @@ def _value_classes(ctx, m):
             elif hfields <= eq_fields:
                 ctx.ob('C19.D1', '%s.__hash__ reads only fields __eq__ compares (%s)' % (name, sorted(hfields)),
                        True, '%s:%d' % (FD, meths['__hash__'].lineno))
+                # the hash must be a function of what __eq__ compares: if __eq__ compares a coarsening f(self.F)
+                # (round, lower, strip...), the hash must read F through the same f
+                coarse = {}
+                for node in ast.walk(rest[0]):
+                    if isinstance(node, ast.Attribute) and isinstance(node.value, ast.Name) and node.value.id == 'self':
+                        p_ = getattr(node, '_parent', None)
+                        wrapper = None
+                        if isinstance(p_, ast.Call) and node in p_.args and norm(p_.func) in ('round', 'int', 'abs', 'str', 'float'):
+                            wrapper = norm(p_)
+                        elif isinstance(p_, ast.Attribute) and isinstance(getattr(p_, '_parent', None), ast.Call) \
+                                and p_._parent.func is p_ and p_.attr in ('lower', 'upper', 'casefold', 'strip', 'rstrip', 'lstrip'):
+                            wrapper = norm(p_._parent)
+                        if wrapper and wrapper != 'str(self.%s)' % node.attr:
+                            coarse[node.attr] = wrapper
+                htext = norm(meths['__hash__'])
+                for fld, wrapper in sorted(coarse.items()):
+                    if fld in hfields and wrapper not in htext:
+                        ctx.violation('C19.D1', '%s::%s.__hash__' % (FD, name), norm(body_wo_doc(meths['__hash__'])[-1]),
+                                      'two %s values whose %s differ but agree under `%s` are == and yet hash differently '
+                                      '(e.g. Coordinate(37.545, -77.45) and Coordinate(37.54500004, -77.45)): a dict keyed by '
+                                      'one does not find the other' % (name, fld, wrapper),
+                                      '%s.__eq__ compares `%s` but __hash__ hashes the exact self.%s' % (name, wrapper, fld),
+                                      file=FD, line=meths['__hash__'].lineno, engine='E9')
+                    elif fld in hfields:
+                        ctx.ob('C19.D1', '%s: __hash__ reads %s through the same coarsening as __eq__' % (name, fld), True,
+                               '%s:%d' % (FD, meths['__hash__'].lineno))
             else:
                 extra = sorted(hfields - eq_fields)
                 ctx.violation('C19.D1', '%s::%s.__hash__' % (FD, name), norm(body_wo_doc(meths['__hash__'])[-1]),
@@ -414,6 +440,7 @@ def _approx_check(ctx, m):
             ctx.ob('C19.D3', '_approx_check branch `%s`: every kind-specific use of v2 is dominated by a test of '
                              'v2\'s kind' % norm(st)[:60], True, where)
     ctx.floor('_approx_check branches', nbr, 6)
+    _approx_components(ctx, fn, v1, v2, branches)
     _approx_symmetry(ctx, fn, v1, v2, body)
     # element-wise comparison with zip() must be preceded by a length comparison (zip stops at the shorter one)
     for node in ast.walk(fn):
@@ -445,6 +472,54 @@ def _approx_check(ctx, m):
 
 
 SPECIAL = {'datetime.time', 'datetime.datetime', 'Quantity', 'Coordinate'}
+
+# what a branch of _approx_check must compare for the two cells to denote the same value: component -> the
+# spellings that read it from an operand X, and the witness when it is not compared
+COMPONENTS = {
+    'datetime.datetime': [
+        ('zone', ('{x}.tzinfo', '{x}.tzname()', '{x}.utcoffset()'),
+         'cells 2020-01-01T00:00:00Z UTC and 2020-01-01T09:00:00+09:00 Tokyo (the same instant in two zones) compare equal, '
+         'and != says False: aware datetimes compare by instant, the zone is part of a Haystack DateTime'),
+        ('date', ('{x}.date()', '{x}.replace(microsecond=0)', '{x}.year'), 'date-times on different days compare equal'),
+        ('time', ('{x}.time()', '{x}.replace(microsecond=0)', '{x}.hour'), 'date-times at different times of day compare equal'),
+    ],
+    'Quantity': [
+        ('unit', ('{x}.unit',), 'the cells 1 m and 1 kg compare equal'),
+        ('value', ('{x}.value',), 'the cells 1 m and 2 m compare equal'),
+    ],
+    'Coordinate': [
+        ('latitude', ('{x}.latitude',), 'coordinates on different latitudes compare equal'),
+        ('longitude', ('{x}.longitude',), 'coordinates on different longitudes compare equal'),
+    ],
+}
+
+
+def _approx_components(ctx, fn, v1, v2, branches):
+    n = 0
+    for st, facts in branches:
+        kinds = set()
+        for var, classes in facts:
+            if var == v1:
+                kinds |= set(classes)
+        for kind in sorted(kinds & set(COMPONENTS)):
+            if not isinstance(st, ast.Return) or st.value is None:
+                ctx.error('C19.D3', '_approx_check: the %s branch does not end in one return expression' % kind)
+                continue
+            text = norm(st.value)
+            for comp, forms, wit in COMPONENTS[kind]:
+                n += 1
+                ok1 = any(f.format(x=v1) in text for f in forms)
+                ok2 = any(f.format(x=v2) in text for f in forms)
+                where = '%s:%d' % (FG, st.lineno)
+                if ok1 and ok2:
+                    ctx.ob('C19.D3', '_approx_check[%s]: the %s of both cells enters the comparison' % (kind.split('.')[-1], comp),
+                           True, where)
+                else:
+                    ctx.violation('C19.D3', '%s::Grid._approx_check' % FG, text[:200],
+                                  'two grids differing only in a %s cell: %s' % (kind.split('.')[-1], wit),
+                                  'the %s branch of _approx_check does not compare the %s of the two cells'
+                                  % (kind.split('.')[-1], comp), file=FG, line=st.lineno, engine='E6')
+    ctx.floor('_approx_check components compared', n, 7)
 
 
 def _approx_symmetry(ctx, fn, v1, v2, body):
